@@ -256,6 +256,18 @@ Theorem C12_altsvc_keyed_by_host_and_port : altsvc_key_has_port = true.
 Proof. exact gen_altsvc_key. Qed.
 Print Assumptions C12_altsvc_keyed_by_host_and_port.
 
+(* Fingerprint / impersonation handshakes (SetTLSFingerprintX, ImpersonateX: a utls handshake in the
+   TLSHandshakeContext slot, bound to the transport; Clone installs it anew on the clone): after ANY operation
+   sequence the TCP handshakes of a client that has one installed are governed by exactly the settings the setters
+   accumulated for THAT client - a clone's by the clone's - : roots, server name, client certificates, skip-verify
+   (with C12_user_tls_governs_tcp_only: each such handshake is decided by them). *)
+Theorem C12_fingerprint_follows_settings : forall e ops c,
+  let c' := snd (run e c ops) in
+  c_fp c' = true -> c_udial c' = None ->
+  sec (tcp_settings e c') = sec (effective (e_host e) (settings ops (c_tls c))).
+Proof. exact fingerprint_follows_settings. Qed.
+Print Assumptions C12_fingerprint_follows_settings.
+
 (* the three defects of the pinned tree, as theorems about the pinned variants of the same functions *)
 Theorem C12_tls_uniform_pinned_refuted :
   exists host o, sec (tls_view_pinned S3 false host o) <> sec (effective host o).
